@@ -61,11 +61,13 @@ func (s *socket) RecvMsg() (*protocol.Message, error) {
 	// socket.  Later we can look at moving this to priority queues
 	// based on socket pipes.
 	timeQ := nilQ
+	s.Lock()
+	if s.recvExpire > 0 {
+		timeQ = time.After(s.recvExpire)
+	}
+	s.Unlock()
 	for {
 		s.Lock()
-		if timeQ == nil && s.recvExpire > 0 {
-			timeQ = time.After(s.recvExpire)
-		}
 		closeQ := s.closeQ
 		sizeQ := s.sizeQ
 		recvQ := s.recvQ
